@@ -45,7 +45,8 @@ Definition run_codes (args : list (list byte)) : list byte :=
     match hex_to_N h with
     | None => s2b "BADCASE"
     | Some c =>
-      if tok_eqb k "TYPE" then unwords [ty_tok (type_of_code c); N_to_hex (code_of_type (type_of_code c))]
+      if tok_eqb k "TYPE" then unwords [ty_tok (type_of_code c); N_to_hex (code_of_type (type_of_code c));
+                                         N_to_hex (code_of_qtype (QT (type_of_code c)))]          (* From<TYPE> for QTYPE, back to u16 *)
       else if tok_eqb k "CLASS" then out_line (class_of_code c) (fun k => unwords [class_tok k; N_to_hex (code_of_class k)])
       else if tok_eqb k "QCLASS" then out_line (qclass_of_code c) (fun q => unwords [qclass_tok q; N_to_hex (code_of_qclass q)])
       else if tok_eqb k "QTYPE" then out_line (qtype_of_code c) (fun q => unwords [qtype_tok q; N_to_hex (code_of_qtype q)])
@@ -104,6 +105,15 @@ Definition run_peek (args : list (list byte)) : list byte :=
              List.concat (map (fun f => res_tok (peek_has_flags d f) bool_tok) all_flags);
              res_tok (peek_rcode d) (fun r => N_to_hex (rcode_disc r));
              res_tok (peek_opcode d) (fun o => N_to_hex (opcode_disc o))]
+  | _ => s2b "BADCASE"
+  end.
+
+(* PEEKF hex mask: header_buffer::has_flags with a set of flags *)
+Definition run_peekf (args : list (list byte)) : list byte :=
+  match args with
+  | [h; m] => match hex_to_bytes h, hex_to_N m with
+              | Some d, Some mask => res_tok (peek_has_flags d (from_bits_truncate mask)) bool_tok
+              | _, _ => s2b "BADCASE" end
   | _ => s2b "BADCASE"
   end.
 
@@ -697,5 +707,6 @@ Definition run_line (line : list byte) : list byte :=
     else if tok_eqb cmd "FLAGS" then run_flags args
     else if tok_eqb cmd "BUILDHDR" then run_buildhdr args
     else if tok_eqb cmd "HDRMOD" then run_hdrmod args
+    else if tok_eqb cmd "PEEKF" then run_peekf args
     else s2b "BADCASE"
   end.
